@@ -341,6 +341,7 @@ type Options struct {
 	OpPairs     bool // every ordered pair of write operations through the same view object (small roots, depth <= 1)
 	BulkPairs   bool // two-array operations
 	Steps       []int
+	WriteDepth  int  // >0: write footprints only for chains of fewer than this many operations (deeper states: reads and bulk observations only); 0 = every state
 	Coarse      bool // axes longer than 8: only a few start positions and the lengths around 16, 32 and 64 plus the full extent ("wide" roots that cross size thresholds of fast paths)
 	MaxFailures int
 	Prop        string // property id for signatures
@@ -588,6 +589,9 @@ func (e *explorer[T, A]) alphabet(m *mview[T]) []Op {
 	}
 	if e.opt.Reshape {
 		for _, s := range factorisations(product(shape), 4) {
+			if e.opt.Coarse && product(shape) > 64 && !(len(s) == 1 || (len(s) == 2 && (s[0] == 2 || s[1] == 2))) {
+				continue // wide roots: only the flat shape and the two-row / two-column shapes as transitions (every same-count shape is still observed in each state)
+			}
 			if !sameInts(s, shape) {
 				out = append(out, Op{Kind: "reshape", Shape: s})
 			}
